@@ -1,39 +1,142 @@
 """C09 read/received marks: theorems in coq/Props/PropC09.v over Sys/Topic.v (note,
-publish, load); correspondence + monitor through the topic-history driver."""
-from props import statelib
-from props.statelib import eff
+publish, load); correspondence + monitor through the topic-history driver.
 
-NOTE_OPS = {"note", "pub", "sub", "leave", "getdesc", "getsub", "unload", "restart", "delmsg", "setsub", "delsub"}
+Scenarios: the shared random profiles of topiclib plus this plugin's MODEL-GUIDED note
+scenarios (gen_guided): the extracted model is stepped alongside generation and every
+note's sequence number is aimed at a boundary of a guard of handleNoteBroadcast computed
+from the model's own marks (DESIGN.md 4.1).  The distribution (note kind x position of
+seq relative to read/recv/lastID x outcome) is measured on the IMPLEMENTATION's trace and
+written to the evidence."""
+import json
+
+from props import statelib
+from props import topiclib as T
+from props.statelib import eff, kvs, View
+
+# kinds accepted by Session.note; anything else is an unknown kind
+GO_NOTE_KINDS = ("read", "recv", "kp", "kpa", "kpv", "data", "call")
+
+
+# ---------------------------------------------------------------------------
+# the property on the implementation's trace
+
+def note_class(prev, origin, actor, what, seq):
+    """What the property demands for a note, judged on the implementation's own state
+    before the request.  -> (class, why); classes:
+      invalid      unknown kind, seq <= 0 (read/recv), seq != 0 (kp), seq beyond the latest message,
+                   or a routed note for a topic that is not loaded      -> dropped silently
+      stale        read/recv not above the sender's current mark (duplicates included) -> dropped silently
+      unpermitted  read/recv without R, kp without W, sender not subscribed         -> dropped silently
+      reply        read/kp from a session that is not attached: 409 (test-pinned, not an 'invalid note')
+      valid        accepted
+      other        kinds outside the modelled alphabet (kpa, kpv, data, call): no demand"""
+    if what not in GO_NOTE_KINDS:
+        return "invalid", "unknown kind"
+    if what not in ("read", "recv", "kp"):
+        return "other", ""
+    if what in ("read", "recv") and seq <= 0:
+        return "invalid", "seq <= 0"
+    if what == "kp" and seq != 0:
+        return "invalid", "typing note with a seq"
+    attached = prev.loaded and origin in prev.csess
+    if not attached:
+        if what != "recv":
+            return "reply", "not attached"
+        if not prev.loaded:
+            return "invalid", "topic not loaded"
+    if seq > prev.topic.get("seqid", 0):
+        return "invalid", "seq beyond the latest message"
+    pud = prev.cusers.get(actor)
+    mode = eff(pud["want"], pud["given"]) if pud else ""
+    if what == "kp":
+        return ("valid", "") if "W" in mode else ("unpermitted", "no W" if pud else "not subscribed")
+    if "R" not in mode:
+        return "unpermitted", ("no R" if pud else "not subscribed")
+    if seq <= pud[what]:
+        return "stale", "%s mark is %d" % (what, pud[what])
+    return "valid", ""
+
+
+def not_silent(prev, v):
+    """ways in which the request was NOT dropped silently"""
+    out = []
+    if v.frames or v.pres:
+        out.append("output %s" % (v.frames + v.pres))
+    if v.b.get("calls"):
+        out.append("%s adapter call(s) [%s]" % (v.b["calls"], v.b.get("calllog", "")))
+    if v.b["store"] != prev.b["store"]:
+        out.append("store changed: %s" % [l for l in v.b["store"] if l not in prev.b["store"]])
+    if prev.loaded and v.loaded and v.b["cache"] != prev.b["cache"]:
+        out.append("cache changed: %s" % [l for l in v.b["cache"] if l not in prev.b["cache"]])
+    return out
+
+
+_views = {}   # scenario id -> views of the main run (for the distribution)
 
 
 def monitor(sc, views):
     res = []
     prev = None
-    life = {}      # user -> lifetime counter (bumped when the subscription row is deleted / recreated)
+    if sc.id not in _views:
+        _views[sc.id] = views
+    rep_desc, rep_sub = {}, {}     # user -> last (read, recv) reported to clients in {meta desc} / {meta sub}
     for k, v in enumerate(views):
         fault, kind, args = sc.ops[k]
         actor = sc.sessions.get(args[0]) if args else None
         seqid = v.topic.get("seqid", 0)
-        # bounds, everywhere the marks are stored or reported
+        reloaded = prev is None or not prev.loaded or not v.loaded or kind in ("unload", "restart") or fault[0] == "C"
+        mine = kind == "note" and len(args) > 1
+        # ---- bounds, everywhere the marks are stored or reported
         for u, s in v.subs.items():
             if s["deleted"]:
                 continue
             if not (0 <= s["read"] <= s["recv"] <= seqid):
                 if 0 <= s["read"] <= seqid and 0 <= s["recv"] <= seqid and s["read"] > s["recv"]:
-                    res.append(("stored-read-le-recv", k, "user %d stored read=%d > recv=%d" % (u, s["read"], s["recv"])))
+                    p = prev.subs.get(u) if prev is not None else None
+                    introduced = p is not None and not p["deleted"] and p["read"] <= p["recv"]
+                    if introduced and not (mine and args[1] == "read" and actor == u):
+                        # the recorded finding is: a READ note stores read alone; any other way in is new
+                        res.append(("stored-read-gt-recv-introduced", k, "user %d stored read=%d > recv=%d after %s by user %s"
+                                    % (u, s["read"], s["recv"], (kind, args), actor)))
+                    else:
+                        res.append(("stored-read-le-recv", k, "user %d stored read=%d > recv=%d" % (u, s["read"], s["recv"])))
                 else:
                     res.append(("stored-marks-bounds", k, "user %d stored read=%d recv=%d latest=%d" % (u, s["read"], s["recv"], seqid)))
         if v.loaded:
             lastid = v.cache.get("lastid", 0)
             for u, p in v.cusers.items():
                 if not (0 <= p["read"] <= p["recv"] <= lastid):
-                    law = "cached-read-le-recv" if (0 <= p["read"] <= lastid and 0 <= p["recv"] <= lastid) else "cached-marks-bounds"
-                    res.append((law, k, "user %d cached read=%d recv=%d lastid=%d" % (u, p["read"], p["recv"], lastid)))
+                    if 0 <= p["read"] <= lastid and 0 <= p["recv"] <= lastid:
+                        q = prev.cusers.get(u) if (prev is not None and not reloaded) else None
+                        if q is not None and q["read"] <= q["recv"]:
+                            # the recorded finding enters the cache only through a reload of the stored rows
+                            res.append(("cached-read-gt-recv-introduced", k, "user %d cached read=%d > recv=%d after %s by user %s"
+                                        % (u, p["read"], p["recv"], (kind, args), actor)))
+                        else:
+                            res.append(("cached-read-le-recv", k, "user %d cached read=%d recv=%d lastid=%d" % (u, p["read"], p["recv"], lastid)))
+                    else:
+                        res.append(("cached-marks-bounds", k, "user %d cached read=%d recv=%d lastid=%d" % (u, p["read"], p["recv"], lastid)))
+        # a subscription that ended: its reports start again from zero
+        for u in list(rep_sub):
+            if u not in v.subs or v.subs[u]["deleted"]:
+                rep_sub.pop(u, None)
+                rep_desc.pop(u, None)
+        if reloaded:
+            # {meta desc} reports the cached marks; under injected store faults the cache may be ahead of the store
+            rep_desc.clear()
         for sid, t in v.frames:
             if t.startswith("desc "):
-                d = statelib.kvs(t)
-                if d["acs"] != "-/-" and not (0 <= int(d["read"]) <= int(d["recv"]) <= max(int(d["seq"]), 0) or int(d["seq"]) == 0 and int(d["read"]) == 0 and int(d["recv"]) == 0):
+                d = kvs(t)
+                rd, rc, sq = int(d["read"]), int(d["recv"]), int(d["seq"])
+                if d["acs"] != "-/-" and not (0 <= rd <= rc <= max(sq, 0) or sq == 0 and rd == 0 and rc == 0):
                     res.append(("reported-marks-bounds", k, "desc to session %d: %s" % (sid, t)))
+                ru = sc.sessions.get(sid)
+                if d["acs"] != "-/-" and "/" in d["acs"] and "R" in eff(*d["acs"].split("/", 1)) and ru is not None and sq > 0:
+                    old = rep_desc.get(ru)
+                    if old and (rd < old[0] or rc < old[1]):
+                        res.append(("reported-marks-monotone", k, "{meta desc} to session %d of user %d reports read=%d recv=%d after read=%d recv=%d"
+                                    % (sid, ru, rd, rc, old[0], old[1])))
+                    rep_desc[ru] = (rd, rc)
             elif t.startswith("sub "):
                 for row in t.split()[1:]:
                     f = row.split(":")
@@ -41,7 +144,19 @@ def monitor(sc, views):
                     if not (0 <= rd <= rc <= seqid):
                         law = "reported-read-le-recv" if (0 <= rd <= seqid and 0 <= rc <= seqid) else "reported-marks-bounds"
                         res.append((law, k, "{meta sub} to session %d reports user %s read=%d recv=%d latest=%d" % (sid, f[0], rd, rc, seqid)))
+                    ru = int(f[0]) if f[0].lstrip("-").isdigit() else 0
+                    srow = v.subs.get(ru)
+                    if srow and not srow["deleted"]:
+                        m = eff(srow["want"], srow["given"])
+                        if "R" in m and "J" in m:
+                            old = rep_sub.get(ru)
+                            if old and (rd < old[0] or rc < old[1]):
+                                res.append(("reported-marks-monotone", k, "{meta sub} to session %d reports user %d read=%d recv=%d after read=%d recv=%d"
+                                            % (sid, ru, rd, rc, old[0], old[1])))
+                            rep_sub[ru] = (rd, rc)
+        # ---- neither mark ever decreases; who may move a mark
         if prev is not None:
+            acked = [t for sid, t in v.frames if t.startswith("ctrl 202")]
             for u, s in v.subs.items():
                 p = prev.subs.get(u)
                 if p is None or s["deleted"] or p["deleted"]:
@@ -51,35 +166,52 @@ def monitor(sc, views):
                 if (s["read"] < p["read"] or s["recv"] < p["recv"]) and not recreated:
                     res.append(("marks-monotone", k, "user %d marks moved back: read %d->%d recv %d->%d" % (u, p["read"], s["read"], p["recv"], s["recv"])))
                 if (s["read"], s["recv"]) != (p["read"], p["recv"]) and not recreated:
-                    acked = [t for sid, t in v.frames if t.startswith("ctrl 202")]
                     if kind == "pub" and actor == u and acked:
-                        n = int(statelib.kvs(acked[0])["seq"])
+                        n = int(kvs(acked[0])["seq"])
                         if (s["read"], s["recv"]) != (n, n):
                             res.append(("publisher-marks-jump", k, "publisher's marks are %d/%d after message %d" % (s["read"], s["recv"], n)))
                     elif kind == "note" and actor == u:
-                        if "R" not in eff(p["want"], p["given"]):
+                        # R as the live topic sees it (a mode change made through the hub while detached reaches the
+                        # store only: that divergence is C08's business) or as stored
+                        q = prev.cusers.get(u) if prev.loaded else None
+                        if "R" not in eff(p["want"], p["given"]) and not (q and "R" in eff(q["want"], q["given"])):
                             res.append(("note-needs-read", k, "mark of user %d moved by a note without R" % u))
                     else:
                         res.append(("mark-moved-by-other", k, "marks of user %d changed by %s of user %s" % (u, kind, actor)))
-        # info audience
+            if not reloaded:
+                for u, c in v.cusers.items():
+                    p = prev.cusers.get(u)
+                    if p is None:
+                        continue
+                    if c["read"] < p["read"] or c["recv"] < p["recv"]:
+                        res.append(("cached-marks-monotone", k, "user %d cached marks moved back: read %d->%d recv %d->%d by %s of user %s"
+                                    % (u, p["read"], c["read"], p["recv"], c["recv"], (kind, args), actor)))
+                    if (c["read"], c["recv"]) != (p["read"], p["recv"]):
+                        if kind == "pub" and actor == u and acked:
+                            n = int(kvs(acked[0])["seq"])
+                            if (c["read"], c["recv"]) != (n, n):
+                                res.append(("publisher-marks-jump", k, "publisher's cached marks are %d/%d after message %d" % (c["read"], c["recv"], n)))
+                        elif kind == "note" and actor == u:
+                            if "R" not in eff(p["want"], p["given"]):
+                                res.append(("note-needs-read", k, "cached mark of user %d moved by a note without R" % u))
+                        else:
+                            res.append(("mark-moved-by-other", k, "cached marks of user %d changed by %s of user %s" % (u, kind, actor)))
+        # ---- notes: invalid ones are dropped silently; audience of the relay
         infos = [(sid, t) for sid, t in v.frames if t.startswith("info ")]
         if kind == "note" and prev is not None:
             what, seq = args[1], int(args[2])
             origin = args[0]
-            amode = eff(prev.subs.get(actor, {}).get("want", ""), prev.subs.get(actor, {}).get("given", "")) if actor in prev.subs and not prev.subs[actor]["deleted"] else ""
-            valid = (what in ("read", "recv") and 0 < seq <= prev.topic.get("seqid", 0) and "R" in amode) or \
-                    (what == "kp" and seq == 0 and "W" in amode)
-            if origin in prev.csess and (what not in ("read", "recv", "kp") or (what in ("read", "recv") and seq <= 0) or (what == "kp" and seq != 0) \
-               or (what in ("read", "recv") and seq > prev.topic.get("seqid", 0))):
-                # invalid by value: no reply, no side effect
-                if v.frames or v.pres:
-                    res.append(("invalid-note-silent", k, "invalid note %s seq=%d produced output %s" % (what, seq, v.frames + v.pres)))
-                if v.b["store"] != prev.b["store"]:
-                    res.append(("invalid-note-silent", k, "invalid note %s seq=%d changed the store" % (what, seq)))
+            cls, why = note_class(prev, origin, actor, what, seq)
+            if cls in ("invalid", "stale", "unpermitted"):
+                bad = not_silent(prev, v)
+                if bad:
+                    res.append((cls + "-note-silent", k, "%s note %s seq=%d (%s) from session %d of user %s was not dropped silently: %s"
+                                % (cls, what, seq, why, origin, actor, "; ".join(bad)[:600])))
+            amode = eff(prev.cusers.get(actor, {}).get("want", ""), prev.cusers.get(actor, {}).get("given", "")) if actor in prev.cusers else ""
             if what == "kp" and "W" not in amode and infos:
                 res.append(("kp-needs-write", k, "typing note relayed from a user without W"))
             for sid, t in infos:
-                d = statelib.kvs(t)
+                d = kvs(t)
                 ru = prev.csess.get(sid)
                 rmode = eff(prev.cusers.get(ru, {}).get("want", ""), prev.cusers.get(ru, {}).get("given", "")) if ru in prev.cusers else ""
                 if sid == origin:
@@ -96,6 +228,237 @@ def monitor(sc, views):
             res.append(("info-only-from-notes", k, "info frames produced by %s" % kind))
         prev = v
     return res
+
+
+# ---------------------------------------------------------------------------
+# model-guided scenarios
+
+RW, R_ONLY, W_ONLY, NEITHER = 47, 11, 13, 9      # JRWPS, JRP, JWP, JP (want; given is JRWPS)
+BOUNDARIES = ["neg", "zero", "one", "read-1", "read", "read+1", "mid", "recv-1", "recv", "recv+1", "last-1", "last", "last+1", "far"]
+
+
+def aim(b, rd, rc, last, rng):
+    return {"neg": -rng.choice([1, 1, 2, 7]), "zero": 0, "one": 1, "read-1": rd - 1, "read": rd, "read+1": rd + 1,
+            "mid": (rd + rc) // 2, "recv-1": rc - 1, "recv": rc, "recv+1": rc + 1, "last-1": last - 1, "last": last,
+            "last+1": last + 1, "far": last + rng.choice([2, 3, 5, 100000])}[b]
+
+
+def model_marks(view, u):
+    """(read, recv, lastid) of user u in the MODEL's state"""
+    if view is None:
+        return 0, 0, 0
+    last = view.cache.get("lastid", 0) if view.loaded else view.topic.get("seqid", 0)
+    p = view.cusers.get(u) if view.loaded else None
+    if p is None:
+        p = view.subs.get(u)
+    return (p["read"], p["recv"], last) if p else (0, 0, last)
+
+
+def gen_guided(ctx, count):
+    """Each scenario: a group topic with an owner, the SUBJECT (user 2: two attached sessions and one that never
+    attaches), a reader peer, a peer without R and (in some) a stranger; publishes from another user; the subject's
+    marks are driven to read < recv < lastID with gaps >= 2 (or to one of the degenerate shapes); then notes whose seq
+    is aimed at every boundary, from every kind of session, interleaved with reports, publishes, deletions,
+    permission changes and reloads.  Every choice that depends on the state reads the extracted model's state."""
+    rng = ctx.rng
+    scns, plans = [], {}
+    deck = [(w, b) for b in BOUNDARIES for w in ("read", "recv")]
+    shapes = ["strict"] * 7 + ["equal", "top", "zero", "inverted"]
+    for i in range(count):
+        sc = T.Scn("m%d" % i)
+        cls = ["RW", "RW", "RW", "RW", "RW", "R", "W", "none", "stranger"][i % 9] if i >= len(deck) * 2 else "RW"
+        shape = "strict" if i < len(deck) * 2 else rng.choice(shapes)
+        stranger = cls == "stranger"
+        sc.nusers = 5 if stranger else 4
+        sc.head.append("scn %s owner=1 auth=%d anon=0 ownerwant=255 ownergiven=255" % (sc.id, 0 if stranger else rng.choice([47, 47, 0])))
+        for u in range(1, sc.nusers + 1):
+            sc.head.append("user %d acc=47" % u)
+        want = {"RW": RW, "R": R_ONLY, "W": W_ONLY, "none": NEITHER, "stranger": RW}[cls]
+        sc.head.append("subrow 2 want=%d given=47" % want)
+        sc.head.append("subrow 3 want=47 given=47")
+        sc.head.append("subrow 4 want=%d given=47" % rng.choice([W_ONLY, NEITHER]))
+        sess = {1: 1, 2: 2, 3: 2, 4: 2, 5: 3, 6: 3, 7: 4}
+        if stranger:
+            sess[8] = 5
+        for s in sorted(sess):
+            sc.head.append("sess %d %d" % (s, sess[s]))
+        sc.sessions = dict(sess)
+        subj = 5 if stranger else 2
+        ssess = [8] if stranger else [2, 3, 4]
+        attach = [1, 2, 3, 5, 7] + ([6] if rng.random() < 0.5 else [])
+        npub = rng.randint(8, 11)
+        plan = []
+        plan.append(lambda rng, sc, v, attach=attach: [("N", "sub", [s, "-", 0]) for s in attach])
+        plan.append(lambda rng, sc, v, npub=npub: [("N", "pub", [rng.choice([1, 1, 5]), 100 + j, 0]) for j in range(npub)])
+        if stranger:
+            plan.append(lambda rng, sc, v: [("N", "sub", [8, "-", 0])])       # refused: the topic gives strangers nothing
+        # drive the subject's marks to the wanted shape (the notes are dropped if the subject has no R)
+        if shape in ("strict", "equal", "inverted"):
+            def prep_recv(rng, sc, v, shape=shape):
+                rd, rc, last = model_marks(v, 2)
+                return [("N", "note", [rng.choice([2, 3]), "read" if shape == "inverted" else "recv", last - rng.choice([3, 3, 4])])]
+
+            def prep_read(rng, sc, v, shape=shape):
+                rd, rc, last = model_marks(v, 2)
+                if shape == "inverted":
+                    # the stored row keeps read > recv (recorded finding); it reaches the cache through a reload
+                    return [("N", "leave", [s, 0]) for s in sorted(sc.sessions) if s in v.csess] + [("N", "unload", [])] + \
+                           [("N", "sub", [s, "-", 0]) for s in (1, 2, 3, 5)]
+                return [("N", "note", [rng.choice([2, 3]), "read", rc if shape == "equal" else max(2, rc - rng.choice([3, 3, 4]))])]
+            plan += [prep_recv, prep_read]
+        elif shape == "top":
+            plan.append(lambda rng, sc, v: [("N", "note", [2, "read", model_marks(v, 2)[2]])])
+        nprobe = rng.randint(3, 6)
+        for j in range(nprobe):
+            first = (j == 0)
+
+            def probe(rng, sc, v, i=i, first=first, ssess=ssess, subj=subj):
+                rd, rc, last = model_marks(v, subj)
+                if first and i < len(deck) * 2:
+                    what, b = deck[i % len(deck)]
+                    sid = ssess[0] if i < len(deck) else rng.choice(ssess[:2])
+                else:
+                    what, b = rng.choice(deck)
+                    sid = rng.choice(ssess + ssess[:2])
+                    r = rng.random()
+                    if r < 0.12:
+                        return [("N", "note", [sid, "kp", 0 if rng.random() < 0.8 else rng.choice([1, last, -1])])]
+                    if r < 0.17:
+                        return [("N", "note", [sid, rng.choice(["xx", "", "READ", "kp2"]) or "x", aim(b, rd, rc, last, rng)])]
+                    if r < 0.27:
+                        # somebody else's note, aimed at that user's own marks
+                        sid = rng.choice([1, 5, 6, 7])
+                        rd, rc, last = model_marks(v, sc.sessions[sid])
+                seq = aim(b, rd, rc, last, rng)
+                # a failing store call under a note the MODEL accepts: nothing may change, nothing may be relayed
+                accepted = v is not None and note_class(v, sid, sc.sessions[sid], what, seq)[0] == "valid"
+                flt = "F1" if (accepted and not first and rng.random() < 0.2) else "N"
+                ops = [(flt, "note", [sid, what, seq])]
+                if rng.random() < 0.25:
+                    ops.append(ops[0])      # the same note again: a duplicate
+                return ops
+
+            def after(rng, sc, v, ssess=ssess, subj=subj):
+                r = rng.random()
+                ops = []
+                if r < 0.45:
+                    ops.append(("N", rng.choice(["getdesc", "getsub"]), [rng.choice([2, 3, 1, 5] if subj == 2 else [8, 1])]))
+                    if rng.random() < 0.5:
+                        ops.append(("N", "getsub", [rng.choice([1, 5, 4])]))
+                elif r < 0.55:
+                    ops.append(("N", "pub", [rng.choice([2, 3, 1, 5]), 500 + len(sc.ops), 1 if rng.random() < 0.3 else 0]))
+                elif r < 0.62:
+                    last = model_marks(v, 2)[2]
+                    ops.append(("N", "delmsg", [1, 1 if rng.random() < 0.5 else 0, "%d:%d" % (rng.randint(1, max(last, 1)), rng.choice([0, last + 1]))]))
+                elif r < 0.70:
+                    # the subject gives up / takes back R or W
+                    ops.append(("N", "setsub", [rng.choice([2, 3]), 0, T.hx(rng.choice(["JWP", "JRP", "JRWPS", "JP"]))]))
+                elif r < 0.76:
+                    s = rng.choice([2, 3, 5])
+                    ops.append(("N", "leave", [s, 0]))
+                    if rng.random() < 0.6:
+                        ops.append(("N", "sub", [s, "-", 0]))
+                elif r < 0.86 and v is not None:
+                    # reload: what comes back must be what was stored; reports right after it
+                    ops += [("N", "leave", [s, 0]) for s in sorted(sc.sessions) if s in v.csess] + [("N", "unload", [])]
+                    ops += [("N", "sub", [s, "-", 0]) for s in (2, 5, 3, 1) if rng.random() < 0.85]
+                    ops += [("N", rng.choice(["getdesc", "getsub"]), [rng.choice([2, 5, 1])])]
+                elif r < 0.92:
+                    ops.append(("N", "restart", []))
+                    ops += [("N", "sub", [s, "-", 0]) for s in (1, 2, 3, 5) if rng.random() < 0.85]
+                    ops += [("N", rng.choice(["getdesc", "getsub"]), [rng.choice([2, 5, 1])])]
+                return ops
+            plan += [probe, after]
+        scns.append(sc)
+        plans[sc.id] = plan
+    for r in range(max(len(p) for p in plans.values())):
+        rc, model, err = T.run_model(ctx, scns, tag="gen")
+        for sc in scns:
+            if r < len(plans[sc.id]):
+                blocks = model.get(sc.id) or []
+                v = View(blocks[-1]) if blocks else None
+                sc.ops += plans[sc.id][r](rng, sc, v)
+    return scns
+
+
+# ---------------------------------------------------------------------------
+# measured distribution of the notes (on the implementation's trace)
+
+def pos_label(seq, rd, rc, last):
+    if seq < 0:
+        return "seq<0"
+    if seq == 0:
+        return "seq=0"
+
+    def c(a, b):
+        return "<" if a < b else ("=" if a == b else ">")
+    far = "" if seq <= last else ("+1" if seq == last + 1 else "++")
+    return "%sread %srecv %slast%s" % (c(seq, rd), c(seq, rc), c(seq, last), far)
+
+
+REQUIRED = ["seq<0", "seq=0", "<read <recv <last", "=read <recv <last", ">read <recv <last", ">read =recv <last",
+            ">read >recv <last", ">read >recv =last", ">read >recv >last+1", ">read >recv >last++"]
+
+
+def distribution(scns, impl):
+    strict = {w: {p: {} for p in REQUIRED} for w in ("read", "recv")}
+    allc, classes, actors = {}, {}, {}
+
+    def bump(d, *path):
+        for p in path[:-1]:
+            d = d.setdefault(p, {})
+        d[path[-1]] = d.get(path[-1], 0) + 1
+    for sc in scns:
+        views = _views.get(sc.id) or [View(b) for b in impl[sc.id]]
+        for k in range(1, len(sc.ops)):
+            fault, kind, args = sc.ops[k]
+            if kind != "note":
+                continue
+            prev, v = views[k - 1], views[k]
+            origin, what, seq = args[0], args[1], int(args[2])
+            actor = sc.sessions.get(origin)
+            pud = prev.cusers.get(actor) if prev.loaded else None
+            row = prev.subs.get(actor)
+            rd, rc = (pud["read"], pud["recv"]) if pud else ((row["read"], row["recv"]) if row and not row["deleted"] else (0, 0))
+            last = prev.cache.get("lastid", 0) if prev.loaded else prev.topic.get("seqid", 0)
+            mode = eff(pud["want"], pud["given"]) if pud else (eff(row["want"], row["given"]) if row and not row["deleted"] else None)
+            att = "attached" if (prev.loaded and origin in prev.csess) else ("detached" if prev.loaded else "detached, topic not loaded")
+            others = [s for s, u in prev.csess.items() if u == actor and s != origin]
+            perm = "not subscribed" if mode is None else ("R" if "R" in mode else "") + ("W" if "W" in mode else "") or "neither R nor W"
+            # outcome as observed
+            out = []
+            cur = v.cusers.get(actor) if v.loaded else None
+            if pud and cur:
+                mv = [m for m in ("read", "recv") if cur[m] != pud[m]]
+                if mv:
+                    out.append("cache:" + "+".join(mv))
+            crow = v.subs.get(actor)
+            if row and crow:
+                mv = [m for m in ("read", "recv") if crow[m] != row[m]]
+                if mv:
+                    out.append("store:" + "+".join(mv))
+            ninfo = len([1 for s, t in v.frames if t.startswith("info ")])
+            if ninfo:
+                out.append("relayed")
+            out += [t for s, t in v.frames if t.startswith("ctrl ")]
+            if fault != "N" and v.b.get("calls"):
+                out.append("store call failed")
+            outcome = " ".join(out) or "dropped silently"
+            wk = what if what in ("read", "recv", "kp") else "unknown kind"
+            pos = pos_label(seq, rd, rc, last) if wk != "kp" else ("seq=0" if seq == 0 else "seq!=0")
+            bump(allc, wk, pos, outcome)
+            bump(actors, "%s, %s%s" % (att, perm, ", user has another attached session" if others else ""), wk, outcome)
+            bump(classes, note_class(prev, origin, actor, what, seq)[0], outcome)
+            if wk in strict and att == "attached" and "R" in (mode or "") and 2 <= rd and rd + 3 <= rc and rc + 3 <= last and pos in strict[wk]:
+                bump(strict[wk], pos, outcome)
+    empty = ["%s / %s" % (w, p) for w in strict for p in REQUIRED if not strict[w][p]]
+    return {"note_distribution": {
+        "how": "every note of the run, classified on the implementation's state before it: kind x position of seq relative to the sender's cached read/recv and lastID x observed outcome",
+        "reader_attached_read_lt_recv_lt_last_gaps_ge_2": strict,
+        "empty_required_cells": empty,
+        "all_notes": allc,
+        "by_sender": actors,
+        "by_demanded_handling": classes}}
 
 
 def frame_f(t):
@@ -117,9 +480,80 @@ def line_f(kind, l):
     return None
 
 
+def relay_audience(ctx):
+    """Clause 'relayed notifications reach only attached sessions of users with read permission - never the
+    originating session, never channel readers, typing notes never any session of the typist': the group-topic
+    model of Sys/Topic.v has no channel subscriptions, so this clause is judged on the fan-out slice built for C02
+    (coq/Sys/Fanout.v info_fanout; theorems re-stated in PropC09.v as c09_relay_*): the same driver
+    (zz_verif_c02_test.go: grp / channel-enabled grp / p2p topics with note ops), the same extracted model, and the
+    info-* laws of tools/props/c02.py evaluated on the IMPLEMENTATION's frames."""
+    from props import c02
+    if ctx.replay:
+        rp = json.load(open(ctx.replay))
+        if not (isinstance(rp.get("replay"), dict) and rp["replay"].get("relay_part")):
+            return
+        scns = [c02.Scn.from_replay(rp["replay"]["scenario"], "replay")]
+    else:
+        scns = [c02.mk(*c, sid="c%d" % i) for i, c in enumerate(c02.CORPUS)]
+        scns += c02.gen_scenarios(ctx, 110 if ctx.tier == "quick" else 2000, prefix="r")
+    rc, impl, log = c02.run_impl(ctx, scns, tag="relay")
+    bad = next((sc for sc in scns if sc.id not in impl or len(impl[sc.id]) != len(sc.ops)), None)
+    if rc != 0 or bad is not None:
+        ctx.violation("monitor", "server-crashed", "the server process died or stopped answering in the relay-audience part (scenario %s): %s"
+                      % (bad.id if bad else "?", log[-1200:]), {"relay_part": True, "scenario": bad.replay() if bad else {}})
+        return
+    rc, model, err = c02.run_model(ctx, scns)
+    seen = {}
+    notes = 0
+    for sc in scns:
+        notes += sum(1 for o in sc.ops if o[0] == "note")
+        for law, k, detail in c02.monitor(sc, impl[sc.id]):
+            if law.startswith("info-"):
+                seen.setdefault(law, []).append((sc, k, detail))
+    known = {f["key"] for f in ctx.load_findings() if f["property"] == "C02"}
+    for law, lst in seen.items():
+        if law in known:
+            continue       # a defect recorded under C02 with exactly this law name
+        sc, k, detail = min(lst, key=lambda x: len(x[0].ops))
+        small = sc.clone(sc.ops[:k + 1]) if hasattr(sc, "clone") else sc
+        ctx.violation("monitor", law, "law %s fails on the implementation's note relays (%d scenarios): %s" % (law, len(lst), detail),
+                      {"relay_part": True, "scenario": small.replay(), "law": law, "detail": detail})
+    mism = 0
+    if rc == 0:
+        for sc in scns:
+            mo = model.get(sc.id, [])
+            for k, o in enumerate(sc.ops):
+                if o[0] == "note" and k < len(mo) and k < len(impl[sc.id]):
+                    d = c02.diff_op(sc, k, impl[sc.id][k], mo[k])
+                    if d:
+                        mism += 1
+                        if not seen:
+                            ctx.violation("corr", "correspondence-relay", "fan-out model and implementation disagree on a note relay: op %d %s: %s"
+                                          % (k, o, json.dumps(d, default=str)[:600]), {"correspondence": "note relay audience (Fanout.v info_fanout)",
+                                                                                       "relay_part": True, "scenario": sc.replay()})
+                        break
+    ctx.coverage["relay_audience"] = {"scenarios": len(scns), "note_requests": notes, "law_failures": sum(len(v) for v in seen.values()),
+                                      "correspondence_mismatches": mism}
+
+
 def run(ctx):
+    quick = ctx.tier == "quick"
+    ok, _ = ctx.build_runner()
+    ok2, _ = ctx.build_main()
+    if ok and ok2:
+        relay_audience(ctx)
+
+    def guided(ctx, total):
+        return gen_guided(ctx, 110 if quick else 1500)
+
+    def cov(scns, impl):
+        d = distribution(scns, impl)
+        if d["note_distribution"]["empty_required_cells"]:
+            ctx.notes.append("note distribution: required cells not visited this run: %s" % d["note_distribution"]["empty_required_cells"])
+        return d
     statelib.run_stateful(
-        ctx, [("msg", 0.0, 0.6), ("msg", 0.12, 0.2), ("perm", 0.0, 0.2)], monitor,
-        dict(ops=None, frame=frame_f, line=line_f, keys=("frames", "store", "cache")),
-        rule="seeded random histories over one group topic: 2-5 users, 1-2 sessions each, seeded subscriptions with assorted want/given; ops pub/note(read|recv|kp|junk, seq around [-1,lastID+1])/get*/delmsg/leave/sub/unload/restart, 6-22 ops; a share with single store faults/crashes; non-trivial = at least one accepted mutating request; distinct by (ops, replies)",
-        trusted=["projection compared for C09: info frames, marks in desc/sub frames and 202 acks, stored and cached read/recv per user, topic seqid/lastid"])
+        ctx, [("msg", 0.0, 0.4), ("msg", 0.12, 0.15), ("perm", 0.0, 0.1)], monitor,
+        dict(ops=None, frame=frame_f, line=line_f, keys=("frames", "store", "cache", "calls")),
+        rule="(a) seeded random histories over one group topic: 2-5 users, 1-2 sessions each, seeded subscriptions with assorted want/given; ops pub/note(read|recv|kp|junk, seq around [-1,lastID+1])/get*/delmsg/leave/sub/unload/restart, 6-22 ops; a share with single store faults/crashes; (b) model-guided note scenarios (tools/props/c09.py gen_guided): the extracted model is stepped alongside generation; the subject's marks are driven to read < recv < lastID with gaps >= 2 (also read = recv, read = recv = lastID, no marks, stored read > recv reloaded) by publishes from another user followed by recv/read notes, then notes of both kinds with seq aimed at -n, 0, 1, read-1, read, read+1, between, recv-1, recv, recv+1, lastID-1, lastID, lastID+1, far beyond - from an attached session, the user's second session, a session that never attached, users without R / without W / without both / without a subscription - plus duplicates, typing notes, unknown kinds, single store faults, interleaved with get desc/sub, publishes, deletions, mode changes, leave/attach, unload and restart; non-trivial = at least one accepted mutating request; distinct by (ops, replies)",
+        trusted=["projection compared for C09 after every request: info frames, marks in desc/sub frames and 202 acks, stored and cached read/recv per user, topic seqid/lastid, number of adapter calls"],
+        extra_scns=guided, extra_cov=cov)
